@@ -1,7 +1,7 @@
 #!/bin/bash
 # usage: tools/run_cfg.sh <MC module> <cfg> <outdir> [rounds] [seed]   (scratch helper)
 set -e
-M=$1; C=$2; O=$3; R=${4:-2}; S=${5:-1}
+M=MC; C=$1.cfg; O=${2:-/verif/out/t}; R=${3:-2}; S=${4:-1}
 mkdir -p $O
 ( cd /verif/harness && cargo build --release --offline 2>&1 | grep -E "^(warning: unused|error|Finished)" | tail -3 )
 ( cd /verif/spec && timeout ${TLC_TIMEOUT:-240} tlc -workers 8 -metadir $O/md -cleanup -noGenerateSpecTE -config $C $M.tla 2>&1 ) | /verif/harness/target/release/replay --seed $S --rounds $R --threads 8 --report $O/rep.json --tlc-log $O/tlc.log
